@@ -16,8 +16,9 @@ From C14 Require Import Base.
 Definition go_decides (g : gbool) : bool := not_nil_g g.
 
 (* ---- pkg/cl/seqfunvars.go: setKeysItem / setKeysIf ---------------------------------------- *)
-(* The keyword switch knows :key :test :start :end :count :from-end; anything else (:test-not) is a
-   TypePanic; :count wants a fixnum (nil is a TypePanic); sfv.end = -1 is None; count = MaxInt is None. *)
+(* The keyword switch of setKeysItem knows :key :test :test-not :start :end :count :from-end (:test-not
+   f is stored as the test "not f"); setKeysIf has neither :test nor :test-not (TypePanic); :count wants a fixnum or nil (nil = no limit: count stays MaxInt); the functions without
+   :count reject the keyword whatever its value; sfv.end = -1 is None; count = MaxInt is None. *)
 Record sfv := mkSfv { v_start : nat; v_end : option nat; v_count : option Z; v_from_end : bool }.
 Definition no_count (f : fname) : bool :=
   match f with
@@ -29,21 +30,17 @@ Definition is_if (f : fname) : bool :=
   | FFindIf | FPositionIf | FCountIf | FRemoveIf | FDeleteIf | FSubstituteIf | FNsubstituteIf => true
   | _ => false
   end.
-(* setKeysIf has no :test case at all *)
 Definition parse_sfv (c : call) : option sfv :=
-  match c_test c, c_count c with
-  | TTestNot _, _ => None
-  | TTest _, _ => if is_if (c_fn c) then None else
-      match c_count c with
-      | CNil => None
-      | CNum z => if no_count (c_fn c) then None
-                  else Some (mkSfv (match c_start c with Some s => s | None => 0%nat end) (c_end c) (Some z) (c_from_end c))
-      | CAbsent => Some (mkSfv (match c_start c with Some s => s | None => 0%nat end) (c_end c) None (c_from_end c))
-      end
-  | _, CNil => None
-  | _, CNum z => if no_count (c_fn c) then None
-                 else Some (mkSfv (match c_start c with Some s => s | None => 0%nat end) (c_end c) (Some z) (c_from_end c))
-  | _, CAbsent => Some (mkSfv (match c_start c with Some s => s | None => 0%nat end) (c_end c) None (c_from_end c))
+  let st := match c_start c with Some s => s | None => 0%nat end in
+  let counted :=
+    match c_count c with
+    | CAbsent => Some (mkSfv st (c_end c) None (c_from_end c))
+    | CNil => if no_count (c_fn c) then None else Some (mkSfv st (c_end c) None (c_from_end c))
+    | CNum z => if no_count (c_fn c) then None else Some (mkSfv st (c_end c) (Some z) (c_from_end c))
+    end in
+  match c_test c with
+  | TTest _ | TTestNot _ => if is_if (c_fn c) then None else counted
+  | TDefault => counted
   end.
 
 (* how one element is matched: item functions call test(item, key(elt)) or ObjectEqual(item, key(elt));
@@ -99,15 +96,16 @@ Definition m_position (c : call) (v : sfv) : res :=
 (* ---- count.go / count-if.go ------------------------------------------------------------------ *)
 Fixpoint count_loop (p : Z -> bool) (l : list Z) (n : Z) : Z :=
   match l with [] => n | x :: t => count_loop p t (if p x then n + 1 else n) end.
-(* inString normalises the end with len(seq) of the STRING (bytes) and then indexes the rune slice *)
+(* inList / inString: if sfv.end < 0 || len < sfv.end { sfv.end = len } with len = the number of
+   elements (runes for a string); then the index loop start .. end-1 in either direction (no
+   iteration when end <= start) *)
 Definition m_count (c : call) (v : sfv) : res :=
   match c_seq c with
   | SNil => RInt 0
   | s => let l := elems s in
-         let e := norm_end (go_len s) (v_end v) in
-         if ((length l <? e) && (v_start v <? e))%nat then RErr EFault
-         else let w := slice (v_start v) e l in
-              RInt (count_loop (m_match c) (if v_from_end v then rev w else w) 0)
+         let e := norm_end (length l) (v_end v) in
+         let w := slice (v_start v) e l in
+         RInt (count_loop (m_match c) (if v_from_end v then rev w else w) 0)
   end.
 
 (* ---- in-place reversal loops ------------------------------------------------------------------------ *)
@@ -146,25 +144,27 @@ Definition m_delete (c : call) (v : sfv) : res :=
   end.
 
 (* ---- substitute.go / substitute-if.go / nsubstitute*.go ----------------------------------------- *)
-(* parseSubstituteArgs looks the keywords up one by one (GetArgsKeyValue): an unknown keyword such as
-   :test-not is silently ignored; :count nil and a negative :count leave count = -1, which replace()
-   turns into len(seq).  maybe() decrements the count for every element it LOOKS AT. *)
+(* parseSubstituteArgs looks the keywords up one by one (GetArgsKeyValue): :test, then :test-not (stored
+   as the test "not f"); :count nil leaves count = -1, which replace() turns into len(seq); a
+   negative :count is clamped to 0.  maybe() returns at once when the count is used up, and decrements
+   it for every element it REPLACES; the index loop stops as soon as the count reaches 0. *)
 Fixpoint sub_loop (p : Z -> bool) (new : Z) (w : list Z) (n : Z) : list Z :=
   match w with
   | [] => []
-  | x :: t => let x' := if p x then new else x in
-              if n - 1 <=? 0 then x' :: t else x' :: sub_loop p new t (n - 1)
+  | x :: t => if n <=? 0 then w
+              else if p x then new :: sub_loop p new t (n - 1)
+              else x :: sub_loop p new t n
   end.
 Definition m_sub_match (c : call) : Z -> bool :=
   if is_if (c_fn c) then if_match (c_pred c) (c_key c)
-  else item_match (match c_test c with TTestNot _ => TDefault | t => t end) (c_item c) (c_key c).
+  else item_match (c_test c) (c_item c) (c_key c).
 Definition m_substitute (c : call) : res :=
   match c_seq c with
   | SNil => RSeq []
   | s => let l := elems s in
          let start := match c_start c with Some n => n | None => 0%nat end in
          let e := norm_end (length l) (c_end c) in
-         let n := match c_count c with CNum z => if z <? 0 then Z.of_nat (length l) else z | _ => Z.of_nat (length l) end in
+         let n := match c_count c with CNum z => if z <? 0 then 0 else z | _ => Z.of_nat (length l) end in
          let w := slice start e l in
          let w' := if c_from_end c then rev (sub_loop (m_sub_match c) (c_new c) (rev w) n)
                    else sub_loop (m_sub_match c) (c_new c) w n in
@@ -172,8 +172,9 @@ Definition m_substitute (c : call) : res :=
   end.
 
 (* ---- delete-duplicates.go (remove-duplicates embeds it) ----------------------------------------- *)
-(* has(v): k := key(v); true when some u in uniq has test(k, u) (default ObjectEqual); otherwise k is
-   appended to uniq.  Without :from-end the sequence is walked backwards and the result reversed. *)
+(* has(v): k := key(v); true when some u in uniq has test(k, u) (default ObjectEqual); k is appended to
+   uniq in either case, so an element is compared with EVERY element of the bounded part examined
+   before it.  Without :from-end the sequence is walked backwards and the result reversed. *)
 Definition dup_test (t : testarg) (a b : Z) : bool :=
   match t with TDefault => a =? b | TTest f => test_app f a b | TTestNot f => negb (test_app f a b) end.
 Fixpoint dup_loop (t : testarg) (k : option keyfn) (start e : nat) (ps : list (nat * Z)) (uniq : list Z) : list Z :=
@@ -182,7 +183,7 @@ Fixpoint dup_loop (t : testarg) (k : option keyfn) (start e : nat) (ps : list (n
   | (i, x) :: r =>
       if ((i <? start) || (e <=? i))%nat then x :: dup_loop t k start e r uniq
       else let kx := key_app k x in
-           if existsb (fun u => dup_test t kx u) uniq then dup_loop t k start e r uniq
+           if existsb (fun u => dup_test t kx u) uniq then dup_loop t k start e r (uniq ++ [kx])
            else x :: dup_loop t k start e r (uniq ++ [kx])
   end.
 Definition m_dups (c : call) (v : sfv) : res :=
@@ -196,7 +197,7 @@ Definition m_dups (c : call) (v : sfv) : res :=
 
 (* ==== member.go / member-if.go ===================================================================== *)
 (* the list argument is looked at first (nil returns nil before any keyword is read); then the keyword
-   loop (:key, :test for member; :key for member-if), then the scan; the result is list[i:] *)
+   loop (:key, :test, :test-not for member; :key for member-if), then the scan; the result is list[i:] *)
 Fixpoint drop_until (p : Z -> bool) (l : list Z) : list Z :=
   match l with [] => [] | x :: t => if p x then l else drop_until p t end.
 Definition m_member (c : call) : res :=
@@ -204,7 +205,6 @@ Definition m_member (c : call) : res :=
   | SNil => RSeq []
   | SList l =>
       match c_fn c, c_test c with
-      | FMember, TTestNot _ => RErr EType
       | FMember, t => RSeq (drop_until (item_match t (c_item c) (c_key c)) l)
       | _, TDefault => RSeq (drop_until (if_match (c_pred c) (c_key c)) l)
       | _, _ => RErr EType
@@ -213,24 +213,25 @@ Definition m_member (c : call) : res :=
   end.
 
 (* ==== assoc.go assoc-if.go assoc-if-not.go rassoc.go rassoc-if.go ================================= *)
-(* args[1].(slip.List) fails for the Go nil: (assoc x nil) is a type error.  With :test the call is
-   test(key, item) — the arguments swapped.  The alist is (k1 . v1) ... given as two lists. *)
+(* alist, ok := args[1].(slip.List); if !ok && args[1] != nil { TypePanic }: the Go nil is the empty
+   alist.  With :test the call is test(item, key), with :test-not its negation.  The alist is (k1 . v1) ... given as two lists. *)
 Definition assoc_test (t : testarg) (item k : Z) : bool :=
-  match t with TDefault => item =? k | TTest f => test_app f k item | TTestNot f => negb (test_app f k item) end.
+  match t with TDefault => item =? k | TTest f => test_app f item k | TTestNot f => negb (test_app f item k) end.
 Definition pair_res (o : option (Z * Z)) : res := match o with Some (k, v) => RSeq [k; v] | None => RNil end.
+Definition list_arg (s : seqin) : option (list Z) :=
+  match s with SNil => Some [] | SList l => Some l | _ => None end.
 Definition m_assoc (c : call) : res :=
-  match c_seq c with
-  | SList ks =>
+  match list_arg (c_seq c) with
+  | Some ks =>
       let al := combine ks (elems (c_seq2 c)) in
       let side (kv : Z * Z) := match c_fn c with FRassoc | FRassocIf => snd kv | _ => fst kv end in
       match c_fn c, c_test c with
-      | (FAssoc | FRassoc), TTestNot _ => RErr EType
       | (FAssoc | FRassoc), t => pair_res (find (fun kv => assoc_test t (c_item c) (key_app (c_key c) (side kv))) al)
       | FAssocIfNot, TDefault => pair_res (find (fun kv => negb (pred_app (c_pred c) (key_app (c_key c) (side kv)))) al)
       | _, TDefault => pair_res (find (fun kv => pred_app (c_pred c) (key_app (c_key c) (side kv))) al)
       | _, _ => RErr EType
       end
-  | _ => RErr EType
+  | None => RErr EType
   end.
 
 (* ==== search.go ===================================================================================== *)
@@ -245,8 +246,7 @@ Fixpoint prefix_match (t : testarg) (a b : list Z) : bool :=
   end.
 Definition m_search (c : call) : res :=
   match c_test c with
-  | TTestNot _ => RErr EType
-  | t =>
+  | t =>                                            (* :test-not f is the test "not f" *)
       let l1 := elems (c_seq c) in let l2 := elems (c_seq2 c) in
       let s1 := match c_start c with Some n => n | None => 0%nat end in
       let s2 := match c_start2 c with Some n => n | None => 0%nat end in
@@ -259,13 +259,14 @@ Definition m_search (c : call) : res :=
           if ((e1 <? s1) || (e2 <? s2))%nat then RErr EFault      (* seq[start:end] with end < start *)
           else
           let w1 := slice s1 e1 l1 in let w2 := slice s2 e2 l2 in
-          if (length w1 =? 0)%nat then RInt (if c_from_end c then Z.of_nat (length w2) else 0)
+          (* the empty pattern matches at the start (with :from-end at the end) of the searched range *)
+          if (length w1 =? 0)%nat then RInt (Z.of_nat (if c_from_end c then s2 + length w2 else s2))
           else if ((length w2 =? 0) || (length w2 <? length w1))%nat then RNil
           else
             let k1 := map (key_app (c_key c)) w1 in let k2 := map (key_app (c_key c)) w2 in
-            (* forward: offsets 0 .. len2-len1.  from-end: i runs from len2-1 down and stops at
-               i < len1, so the offsets are len2-len1 down to 1 — offset 0 is never tried *)
-            let offs := if c_from_end c then rev (seq 1 (length w2 - length w1)) else seq 0 (length w2 - length w1 + 1) in
+            (* forward: offsets 0 .. len2-len1.  from-end: i (the index of the last element of the
+               candidate) runs from len2-1 down and stops at i < len1-1: the offsets len2-len1 down to 0 *)
+            let offs := if c_from_end c then rev (seq 0 (length w2 - length w1 + 1)) else seq 0 (length w2 - length w1 + 1) in
             match find (fun o => prefix_match t k1 (skipn o k2)) offs with
             | Some o => RInt (Z.of_nat (s2 + o))
             | None => RNil
@@ -279,7 +280,7 @@ Definition seq_to_list (s : seqin) (start : option nat) (e : option nat) : lres 
   let l := elems s in
   let st := match start with Some n => n | None => 0%nat end in
   if ((st =? 0) && (length l =? 0))%nat && (match e with None => true | _ => false end) then LOk []
-  else if (length l <=? st)%nat then LErr EError
+  else if (length l <? st)%nat then LErr EError          (* start = length: the empty range *)
   else match e with
        | None => LOk (skipn st l)
        | Some n => if (length l <? n)%nat then LErr EError else if (n <? st)%nat then LErr EError else LOk (slice st n l)
@@ -302,8 +303,7 @@ Fixpoint mm_bwd (t : testarg) (k : option keyfn) (len1 : nat) (a b : list Z) (i 
   end.
 Definition m_mismatch (c : call) : res :=
   match c_test c with
-  | TTestNot _ => RErr EType
-  | t =>
+  | t =>                                            (* :test-not f is the test "not f" *)
       match seq_to_list (c_seq c) (c_start c) (c_end c) with
       | LErr e => RErr e
       | LOk w1 =>
@@ -319,27 +319,24 @@ Definition m_mismatch (c : call) : res :=
   end.
 
 (* ==== subseq.go ====================================================================================== *)
-(* the type switch has no `case nil`; start is required; end nil or absent = length; then
-   ta[start:end] — a Go panic when end < start *)
+(* start is required; end nil or absent = length; every arm of the type switch (`case nil` is the list of
+   length 0) checks len < start || len < end; then ta[start:end] — a Go panic when end < start *)
 Definition m_subseq (c : call) : res :=
-  match c_seq c with
-  | SNil => RErr EType
-  | s => let l := elems s in
-         let st := match c_start c with Some n => n | None => 0%nat end in
-         let e := match c_end c with Some n => n | None => length l end in
-         if ((length l <? st) || (length l <? e))%nat then RErr EError
-         else if (e <? st)%nat then RErr EFault
-         else RSeq (slice st e l)
-  end.
+  let l := elems (c_seq c) in
+  let st := match c_start c with Some n => n | None => 0%nat end in
+  let e := match c_end c with Some n => n | None => length l end in
+  if ((length l <? st) || (length l <? e))%nat then RErr EError
+  else if (e <? st)%nat then RErr EFault
+  else RSeq (slice st e l).
 
 (* ==== replace.go ===================================================================================== *)
 Definition replace_check (start : option nat) (e : option nat) (size : nat) : option nat (* None: error *) :=
   let st := match start with Some n => n | None => 0%nat end in
   if ((size =? 0) && (st =? 0))%nat && (match e with None => true | _ => false end) then Some 0%nat
-  else if (size <=? st)%nat then None
+  else if (size <? st)%nat then None
   else match e with
        | None => Some size
-       | Some n => if (size <=? n)%nat then None else if (n <? st)%nat then None else Some n
+       | Some n => if (size <? n)%nat then None else if (n <? st)%nat then None else Some n
        end.
 Definition m_replace (c : call) : res :=
   match seq_to_list (c_seq2 c) (c_start2 c) (c_end2 c) with
@@ -381,21 +378,18 @@ Definition m_reverse_list (l : list Z) : list Z :=
 Definition m_reverse (c : call) : res := RSeq (m_reverse_list (elems (c_seq c))).
 
 (* ==== merge.go ======================================================================================= *)
-(* slip.CoerceToList(nil).(slip.List) is a failed type assertion.  The element of the first sequence
-   is taken when predicate(k1, k2) holds, otherwise the element of the second. *)
+(* seq, _ := slip.CoerceToList(arg).(slip.List): nil is the empty list.  The element of the second
+   sequence is taken only when predicate(k2, k1) holds, otherwise the element of the first (stable). *)
 Definition lt_of (t : testarg) (a b : Z) : bool := test2 t a b.
 Fixpoint m_merge_lists (t : testarg) (k : option keyfn) (l1 : list Z) : list Z -> list Z :=
   fix inner (l2 : list Z) : list Z :=
     match l1, l2 with
     | [], _ => l2
     | _, [] => l1
-    | x :: a, y :: b => if lt_of t (key_app k x) (key_app k y) then x :: m_merge_lists t k a l2 else y :: inner b
+    | x :: a, y :: b => if lt_of t (key_app k y) (key_app k x) then y :: inner b else x :: m_merge_lists t k a l2
     end.
 Definition m_merge (c : call) : res :=
-  match c_seq c, c_seq2 c with
-  | SNil, _ | _, SNil => RErr EFault
-  | s1, s2 => RSeq (m_merge_lists (c_test c) (c_key c) (elems s1) (elems s2))
-  end.
+  RSeq (m_merge_lists (c_test c) (c_key c) (elems (c_seq c)) (elems (c_seq2 c))).
 
 (* ==== union.go intersection.go set-difference.go subsetp.go ========================================= *)
 (* union: one pass over list-1 then list-2 keeping an element unless test(kept-key, key) holds for a key
@@ -411,7 +405,6 @@ Definition is_list_arg (s : seqin) : bool := match s with SNil | SList _ => true
 Definition m_union (c : call) : res :=
   if is_list_arg (c_seq c) && is_list_arg (c_seq2 c) then
     match c_test c with
-    | TTestNot _ => RErr EType
     | t => RSeq (m_union_loop t (c_key c) (elems (c_seq c) ++ elems (c_seq2 c)) [])
     end
   else RErr EType.
@@ -429,53 +422,47 @@ Fixpoint m_inter_loop (t : testarg) (k : option keyfn) (l1 keys2 keys : list Z) 
 Definition m_intersection (c : call) : res :=
   if is_list_arg (c_seq c) && is_list_arg (c_seq2 c) then
     match c_test c with
-    | TTestNot _ => RErr EType
     | t => match c_seq c, c_seq2 c with
            | SNil, _ | _, SNil => RSeq []
            | s1, s2 => RSeq (m_inter_loop t (c_key c) (elems s1) (map (key_app (c_key c)) (elems s2)) [])
            end
     end
   else RErr EType.
-(* set-difference and subsetp read :key and :test with GetArgsKeyValue: :test-not is ignored *)
-Definition ignore_test_not (t : testarg) : testarg := match t with TTestNot _ => TDefault | x => x end.
+(* set-difference and subsetp read :key, :test and :test-not (stored as the test "not f") with GetArgsKeyValue *)
 Definition m_set_difference (c : call) : res :=
   if is_list_arg (c_seq c) && is_list_arg (c_seq2 c) then
-    let t := ignore_test_not (c_test c) in
+    let t := c_test c in
     let keys2 := map (key_app (c_key c)) (elems (c_seq2 c)) in
     RSeq (filter (fun x => negb (existsb (fun k2 => test2 t (key_app (c_key c) x) k2) keys2)) (elems (c_seq c)))
   else RErr EType.
+(* subsetp: list, ok = arg.(slip.List); if !ok && arg != nil { TypePanic } — nil is the empty list *)
 Definition m_subsetp (c : call) : res :=
-  match c_seq c, c_seq2 c with
-  | SList l1, SList l2 =>
-      let t := ignore_test_not (c_test c) in
-      let keys2 := map (key_app (c_key c)) l2 in
-      if forallb (fun x => existsb (fun k2 => test2 t (key_app (c_key c) x) k2) keys2) l1 then RTrue else RNil
-  | _, _ => RErr EType
-  end.
+  if is_list_arg (c_seq c) && is_list_arg (c_seq2 c) then
+    let t := c_test c in
+    let keys2 := map (key_app (c_key c)) (elems (c_seq2 c)) in
+    if forallb (fun x => existsb (fun k2 => test2 t (key_app (c_key c) x) k2) keys2) (elems (c_seq c)) then RTrue else RNil
+  else RErr EType.
 
 (* ==== every.go some.go notany.go notevery.go ========================================================= *)
 (* for n := 0; ; n++: the sequences are inspected in order, the first that is exhausted ends the
-   loop; the Go nil is not among the cases of the type switch (type error) *)
-Inductive qres := QErr | QVals (l : list bool).
-Definition quant_vals (c : call) : qres :=
+   loop; `case nil` (the empty list) ends it at once.  Every representation of the model is among the
+   cases of the type switch, so there is no error outcome. *)
+Definition quant_vals (c : call) : list bool :=
   match c_nseq c with
-  | 1%nat => match c_seq c with SNil => QErr | s => QVals (map (pred_app (c_pred c)) (elems s)) end
-  | _ => match c_seq c, c_seq2 c with
-         | SNil, _ => QErr
-         | s1, SNil => match elems s1 with [] => QVals [] | _ => QErr end    (* an exhausted first sequence ends the loop first *)
-         | s1, s2 => QVals (map (fun xy => test2 (c_test c) (fst xy) (snd xy)) (combine (elems s1) (elems s2)))
-         end
+  | 1%nat => map (pred_app (c_pred c)) (elems (c_seq c))
+  | _ => map (fun xy => test2 (c_test c) (fst xy) (snd xy)) (combine (elems (c_seq c)) (elems (c_seq2 c)))
   end.
 Definition m_quant (c : call) : res :=
-  match quant_vals c with
-  | QErr => RErr EType
-  | QVals vs =>
-      match c_fn c with
-      | FEvery => if forallb (fun b => b) vs then RTrue else RNil
-      | FSome => if existsb (fun b => b) vs then RTrue else RNil          (* returns t, not the value *)
-      | FNotany => if existsb (fun b => b) vs then RNil else RTrue
-      | _ => if forallb (fun b => b) vs then RNil else RTrue
-      end
+  let vs := quant_vals c in
+  match c_fn c with
+  | FEvery => if forallb (fun b => b) vs then RTrue else RNil
+  (* some returns the first non-nil value of the predicate: t for the predicates answering t; the
+     one-sequence predicate of the flag style (lambda (x) (if ... x nil)) answers the element *)
+  | FSome => if c_flag c && (c_nseq c =? 1)%nat then
+               match find (pred_app (c_pred c)) (elems (c_seq c)) with Some x => RElt x | None => RNil end
+             else if existsb (fun b => b) vs then RTrue else RNil
+  | FNotany => if existsb (fun b => b) vs then RNil else RTrue
+  | _ => if forallb (fun b => b) vs then RNil else RTrue
   end.
 
 (* ==== map.go mapcar.go =============================================================================== *)
@@ -484,13 +471,8 @@ Definition map_vals (c : call) : list Z :=
   | 1%nat => map (key_app (c_key c)) (elems (c_seq c))
   | _ => map (fun xy => binop_app (c_op c) (fst xy) (snd xy)) (combine (elems (c_seq c)) (elems (c_seq2 c)))
   end.
-Definition m_map (c : call) : res :=
-  match c_seq c, c_nseq c, c_seq2 c with
-  | SNil, _, _ => RErr EFault                      (* CoerceToList(nil).(slip.List) *)
-  | _, 1%nat, _ => RSeq (map_vals c)
-  | _, _, SNil => RErr EFault
-  | _, _, _ => RSeq (map_vals c)
-  end.
+(* map: seqs[i], _ = slip.CoerceToList(a).(slip.List) — nil is the empty list *)
+Definition m_map (c : call) : res := RSeq (map_vals c).
 Definition m_mapcar (c : call) : res :=
   match c_seq c, c_nseq c, c_seq2 c with
   | (SList _ | SNil), 1%nat, _ => RSeq (map_vals c)                 (* nil is the empty list (since 99845b4) *)
@@ -499,14 +481,14 @@ Definition m_mapcar (c : call) : res :=
   end.
 
 (* ==== reduce.go ====================================================================================== *)
-(* :end first (0 <= end <= len), then :start against the shortened list (0 <= start < len), then
-   :key over the elements (written back into the list), then the fold; an empty list gives the
+(* :end first (0 <= end <= len), then :start against the shortened list (0 <= start <= len), then
+   :key over the elements (into a fresh list of keys: the argument is left alone), then the fold; an empty list gives the
    initial value or the Go nil *)
 Definition m_reduce_list (c : call) (l : list Z) : res :=
   match (match c_end c with None => Some l | Some e => if (e <=? length l)%nat then Some (firstn e l) else None end) with
   | None => RErr EType
   | Some l1 =>
-  match (match c_start c with None => Some l1 | Some st => if (st <? length l1)%nat then Some (skipn st l1) else None end) with
+  match (match c_start c with None => Some l1 | Some st => if (st <=? length l1)%nat then Some (skipn st l1) else None end) with
   | None => RErr EType
   | Some l2 =>
       let ks := map (key_app (c_key c)) l2 in
@@ -525,11 +507,8 @@ Definition m_reduce_list (c : call) (l : list Z) : res :=
             end
       end
   end end.
-Definition m_reduce (c : call) : res :=
-  match c_seq c with
-  | SNil => RErr EFault
-  | s => m_reduce_list c (elems s)
-  end.
+(* list, _ := slip.CoerceToList(args[1]).(slip.List): nil is the empty list *)
+Definition m_reduce (c : call) : res := m_reduce_list c (elems (c_seq c)).
 
 (* ==== concatenate.go ================================================================================= *)
 Definition m_concatenate (c : call) : res := RSeq (elems (c_seq c) ++ elems (c_seq2 c)).
